@@ -2,6 +2,7 @@ package main
 
 import (
 	"bytes"
+	"regexp"
 	"context"
 	"fmt"
 	"go/types"
@@ -34,6 +35,9 @@ var solvers = []solverSpec{
 	{name: "z3", bin: "z3", args: func(f string, t int) []string { return []string{fmt.Sprintf("-T:%d", t), f} }},
 	{name: "cvc5", bin: "cvc5", pre: "(set-logic ALL)\n", args: func(f string, t int) []string {
 		return []string{"--lang=smt2", "--strings-exp", fmt.Sprintf("--tlimit=%d", t*1000), f}
+	}},
+	{name: "cvc5-enum", bin: "cvc5", pre: "(set-logic ALL)\n", args: func(f string, t int) []string {
+		return []string{"--lang=smt2", "--strings-exp", "--enum-inst", fmt.Sprintf("--tlimit=%d", t*1000), f}
 	}},
 }
 
@@ -85,6 +89,65 @@ func (ex *Exec) script(o *Obligation, withModel bool) string {
 	return sb.String()
 }
 
+var reStrLit = regexp.MustCompile(`"(?:[^"]|"")*"`)
+
+// abstractStrings replaces the String sort by an uninterpreted sort when the query uses strings
+// only through equality (no str.* / re.* operation): distinct literals become distinct constants.
+// Every model over strings induces a model of the abstraction, so `unsat` carries over; the
+// solvers' sequence theory, which makes them give up on quantified goals, stays out of the way.
+func abstractStrings(script string) (string, bool) {
+	if strings.Contains(script, "(re.") || strings.Contains(script, " re.") || strings.Contains(script, "str.in_re") {
+		return "", false
+	}
+	if !strings.Contains(script, "String") {
+		return "", false
+	}
+	lits := map[string]string{}
+	var order []string
+	out := reStrLit.ReplaceAllStringFunc(script, func(m string) string {
+		n, ok := lits[m]
+		if !ok {
+			n = fmt.Sprintf("|strlit!%d|", len(lits))
+			lits[m] = n
+			order = append(order, m)
+		}
+		return n
+	})
+	out = strings.ReplaceAll(out, "String", "USTR")
+	var decl strings.Builder
+	decl.WriteString("(declare-sort USTR 0)\n")
+	// string operations become uninterpreted functions (congruence is all that is kept)
+	ops := []struct{ name, sig string }{
+		{"str.++", "(USTR USTR) USTR"}, {"str.len", "(USTR) Int"}, {"str.at", "(USTR Int) USTR"}, {"str.substr", "(USTR Int Int) USTR"},
+		{"str.indexof", "(USTR USTR Int) Int"}, {"str.contains", "(USTR USTR) Bool"}, {"str.prefixof", "(USTR USTR) Bool"},
+		{"str.suffixof", "(USTR USTR) Bool"}, {"str.to_code", "(USTR) Int"}, {"str.from_code", "(Int) USTR"},
+		{"str.replace_all", "(USTR USTR USTR) USTR"}, {"str.<=", "(USTR USTR) Bool"}, {"str.<", "(USTR USTR) Bool"},
+	}
+	for _, op := range ops {
+		if strings.Contains(out, "("+op.name+" ") {
+			u := "u" + strings.NewReplacer("+", "cat", "<=", "le", "<", "lt").Replace(op.name)
+			out = strings.ReplaceAll(out, "("+op.name+" ", "("+u+" ")
+			fmt.Fprintf(&decl, "(declare-fun %s %s)\n", u, op.sig)
+			if op.name == "str.len" {
+				decl.WriteString("(assert (forall ((s USTR)) (! (>= (ustr.len s) 0) :pattern ((ustr.len s)))))\n")
+			}
+		}
+	}
+	for _, m := range order {
+		fmt.Fprintf(&decl, "(declare-const %s USTR)\n", lits[m])
+	}
+	if len(order) > 1 {
+		decl.WriteString("(assert (distinct")
+		for _, m := range order {
+			decl.WriteString(" " + lits[m])
+		}
+		decl.WriteString("))\n")
+	}
+	return decl.String() + out, true
+}
+
+func usesStringOps(script string) bool { return strings.Contains(script, "(str.") }
+
 func runSolver(ctx context.Context, sp solverSpec, script string, dir string, id string, timeoutS int) (string, string, float64) {
 	file := filepath.Join(dir, fmt.Sprintf("%s.%s.smt2", id, sp.name))
 	content := script
@@ -131,6 +194,17 @@ func runSolver(ctx context.Context, sp solverSpec, script string, dir string, id
 // solveOne decides one obligation: a fast first attempt, then a race of all back ends.
 func (ex *Exec) solveOne(o *Obligation, dir string, id string, timeoutS int, thorough bool) *SolveResult {
 	script := ex.script(o, false)
+	// string abstraction: always sound for `unsat`. Queries that use strings only through equality are
+	// abstracted outright; queries with string operations are tried concretely first and abstracted
+	// (operations uninterpreted) as additional portfolio members.
+	abstractScript := ""
+	if a, ok := abstractStrings(script); ok {
+		if usesStringOps(script) {
+			abstractScript = a
+		} else {
+			script = a
+		}
+	}
 	res := &SolveResult{Outputs: map[string]string{}}
 	want := "unsat"
 	if o.Cover {
@@ -154,7 +228,13 @@ func (ex *Exec) solveOne(o *Obligation, dir string, id string, timeoutS int, tho
 					relaxed.Lines = append(relaxed.Lines, l)
 				}
 			}
-			st2, out2, _ := runSolver(context.Background(), solvers[0], ex.script(&relaxed, false), dir, id+"r", 2)
+			var rl []string
+			for _, l := range strings.Split(ex.script(&relaxed, false), "\n") {
+				if !strings.Contains(l, "(forall ") {
+					rl = append(rl, l)
+				}
+			}
+			st2, out2, _ := runSolver(context.Background(), solvers[0], strings.Join(rl, "\n"), dir, id+"r", 2)
 			res.Outputs["z3-new(relaxed)"] = trimOut(out2)
 			if st2 == "unsat" {
 				st = "unsat"
@@ -193,17 +273,32 @@ func (ex *Exec) solveOne(o *Obligation, dir string, id string, timeoutS int, tho
 	type r struct {
 		name, st, out string
 	}
-	ch := make(chan r, len(solvers))
+	ch := make(chan r, len(solvers)+2)
+	n := 0
 	for _, sp := range solvers {
 		sp := sp
+		n++
 		go func() {
 			s, out, _ := runSolver(ctx, sp, script, dir, id, timeoutS)
 			ch <- r{sp.name, s, out}
 		}()
 	}
+	if abstractScript != "" {
+		for _, sp := range solvers[:2] {
+			sp := sp
+			n++
+			go func() {
+				s, out, _ := runSolver(ctx, sp, abstractScript, dir, id+"a", timeoutS)
+				if s != "unsat" {
+					s = "unknown" // a model of the abstraction is not a model of the query
+				}
+				ch <- r{sp.name + "(str-abstract)", s, out}
+			}()
+		}
+	}
 	final := ""
 	var stats []string
-	for range solvers {
+	for k := 0; k < n; k++ {
 		x := <-ch
 		res.Outputs[x.name] = trimOut(x.out)
 		stats = append(stats, x.st)
